@@ -543,6 +543,8 @@ def _parse_read_reply(tag, data) -> Tag:
             return Tag(tag["tag"], get_bit(tag_value, bit_position), tag["file_type"], None)
 
         else:
+            if len(data) < data_size * tag["element_count"]:
+                raise ResponseError("Reply holds less data than was requested")
             values_list = [
                 unpack_func(data[i : i + data_size]) for i in range(0, len(data), data_size)
             ]
